@@ -1,5 +1,6 @@
 import McpModel.Conn.MonCallsStep
 import McpModel.Conn.MonReqsStep
+import McpModel.Conn.MonCancel
 /-!
 Under `MonRel` every check of the monitors returns `none` on the model's own observation.
 -/
@@ -531,6 +532,16 @@ theorem chkLateDispatch_none {m : Mon} {s : St} (mr : MonReqs m s) (i : Inv4 s) 
     rcases R.late ha with h1 | h1 <;> simp [hrun, ReqPc.inPR] at h1
   · rfl
 
+/-! ### C04: Cancel only for ids the peer named -/
+
+theorem bookCancel_fields (m : Mon) (e : Ev) : ∃ a u, m.bookCancel e = { m with cancelAsked := a, unasked := u } := by
+  cases e <;> simp only [Mon.bookCancel]
+  case k1 id => split <;> exact ⟨_, _, rfl⟩
+  all_goals exact ⟨_, _, rfl⟩
+
+theorem chkCancelAsked_none {m : Mon} {s : St} (C : MonCancel m s) : chkCancelAsked m = none := by
+  simp [chkCancelAsked, C.un]
+
 /-! ### one step -/
 
 theorem none_orElse' {α : Type} (x : Option α) : (none <|> x) = x := by cases x <;> rfl
@@ -543,20 +554,35 @@ theorem monrel_step {m : Mon} {s s' : St} {l : Label} (R : MonRel m s) (i : Inv4
   simp only [step, Option.map_eq_some_iff] at hs
   obtain ⟨s0, h0, rfl⟩ := hs
   have hp := R.prev
-  have mc1 : MonCalls (m.book m.prev (evOf l)) (settle s0) := moncalls_step R.calls i (prev_done hp) h
-  have mr1 : MonReqs (m.book m.prev (evOf l)) (settle s0) := monreqs_settle (monreqs_step0 R.reqs i (prev_sd hp) h0)
-  have mx1 : MonRx (m.book m.prev (evOf l)) (settle s0) := monrx_step R.rx h
-  refine ⟨?_, ?_, ?_, ?_, ?_⟩
-  · show chkAll (m.book m.prev (evOf l)) m.prev (obsOf (settle s0)) (evOf l) = none
+  obtain ⟨a, u, hbc⟩ := bookCancel_fields m (evOf l)
+  have hprev : (m.bookCancel (evOf l)).prev = m.prev := by rw [hbc]
+  have Rc : MonCalls (m.bookCancel (evOf l)) s := by
+    rw [hbc]; exact ⟨R.calls.ncalls, R.calls.sent, R.calls.sentRR, R.calls.ctxd, R.calls.late⟩
+  have Rr : MonReqs (m.bookCancel (evOf l)) s := by
+    rw [hbc]; exact ⟨R.reqs.nreqs, R.reqs.idx, R.reqs.rx, R.reqs.bc, R.reqs.bn, R.reqs.bk, R.reqs.bw, R.reqs.bx, R.reqs.req⟩
+  have Rx : MonRx (m.bookCancel (evOf l)) s := by
+    rw [hbc]; exact ⟨R.rx.seen, R.rx.none⟩
+  have mc1 : MonCalls ((m.bookCancel (evOf l)).book m.prev (evOf l)) (settle s0) := moncalls_step Rc i (prev_done hp) h
+  have mr1 : MonReqs ((m.bookCancel (evOf l)).book m.prev (evOf l)) (settle s0) :=
+    monreqs_settle (monreqs_step0 Rr i (prev_sd hp) h0)
+  have mx1 : MonRx ((m.bookCancel (evOf l)).book m.prev (evOf l)) (settle s0) := monrx_step Rx h
+  have C1 : MonCancel (m.bookCancel (evOf l)) (settle s0) := moncancel_step R.cancel i i' h
+  have C2 := moncancel_book C1 m.prev (obsOf (settle s0)) (evOf l)
+  have C3 : MonCancel ((m.bookCancel (evOf l)).book m.prev (evOf l)) (settle s0) := by
+    obtain ⟨h1, h2⟩ := book_cancelAsked (m.bookCancel (evOf l)) m.prev (evOf l)
+    exact ⟨fun id => by rw [h1]; exact C1.asked id, by rw [h2]; exact C1.un⟩
+  refine ⟨?_, ?_, ?_, ?_, ?_, ?_⟩
+  · show chkAll ((m.bookCancel (evOf l)).book m.prev (evOf l)) m.prev (obsOf (settle s0)) (evOf l) = none
     unfold chkAll
     rw [chkFinal_none hp h, chkOwn_none mc1 i', chkPanic_none, chkBlocked_none mc1 i', chkLate_none mc1 i',
-      chkRegAfterRx_none mx1, chkAnswer_none mr1 i', chkOrder_none hp R.reqs i h0, chkCancelX_none mr1 i', chkEv_none hp i h mr1 i',
+      chkRegAfterRx_none mx1, chkAnswer_none mr1 i', chkOrder_none hp Rr i h0, chkCancelAsked_none C3, chkCancelX_none mr1 i', chkEv_none hp i h mr1 i',
       chkTc_none i', chkOd_none i', chkClosedIdle_none hp h, chkDoneIdle_none i', chkLateDispatch_none mr1 i']
     rfl
   · exact Or.inl rfl
   · exact moncalls_mark mc1 _
   · exact monreqs_mark mr1
   · exact monrx_mark mx1 _
+  · exact C2
 
 /-- No clause fires on the model's own observation trace, from any related pair of states. -/
 theorem runMonFrom_traceFrom (ls : List Label) : ∀ (m : Mon) (s : St), MonRel m s → Inv4 s →
